@@ -1,4 +1,612 @@
-(** C07 — proofs (placeholder for the vertical slice; replaced below) *)
+(** C07 — lemmas and invariants. *)
 From Coq Require Import List Bool Arith NArith ZArith Lia.
 Import ListNotations.
 Require Import Nib.C07.Model Nib.C07.Spec Nib.C07.Facts.
+
+(* ------------------------------------------------------------------ lists *)
+
+Inductive sublist {X} : list X -> list X -> Prop :=
+| sl_nil : sublist [] []
+| sl_cons x l1 l2 : sublist l1 l2 -> sublist (x :: l1) (x :: l2)
+| sl_skip x l1 l2 : sublist l1 l2 -> sublist l1 (x :: l2).
+
+Lemma sublist_refl {X} (l : list X) : sublist l l.
+Proof. induction l; constructor; auto. Qed.
+
+Lemma sublist_nil_l {X} (l : list X) : sublist [] l.
+Proof. induction l; constructor; auto. Qed.
+
+Lemma sublist_app {X} (a a' b b' : list X) : sublist a a' -> sublist b b' -> sublist (a ++ b) (a' ++ b').
+Proof. induction 1; simpl; intros; auto; constructor; auto. Qed.
+
+Lemma sublist_In {X} (a b : list X) x : sublist a b -> In x a -> In x b.
+Proof. induction 1; simpl; intros; auto. destruct H0; auto. Qed.
+
+Lemma sublist_NoDup {X} (a b : list X) : sublist a b -> NoDup b -> NoDup a.
+Proof.
+  induction 1; intro Hn; auto.
+  - inversion Hn; auto.
+  - inversion Hn; subst. constructor; auto. intro Hi. apply H2. eapply sublist_In; eauto.
+Qed.
+
+Lemma sublist_map {X Y} (f : X -> Y) a b : sublist a b -> sublist (map f a) (map f b).
+Proof. induction 1; simpl; constructor; auto. Qed.
+
+(** if [g] is determined by... : equal [g]-images force equal [f]-images, so distinct [f]-images
+    have distinct [g]-images *)
+Lemma NoDup_map_binding {X Y Z} (f : X -> Y) (g : X -> Z) (l : list X) :
+  NoDup (map f l) -> (forall x y, In x l -> In y l -> g x = g y -> f x = f y) -> NoDup (map g l).
+Proof.
+  induction l as [|x l IH]; simpl; intros Hn Hb; [constructor|].
+  inversion Hn; subst. constructor.
+  - intro Hi. apply in_map_iff in Hi as [y [Hy Hin]]. apply H1.
+    rewrite <- (Hb y x); auto. apply in_map; auto.
+  - apply IH; auto.
+Qed.
+
+Lemma NoDup_map_inj {X Y} (f : X -> Y) (l : list X) :
+  (forall x y, f x = f y -> x = y) -> NoDup l -> NoDup (map f l).
+Proof.
+  intros Hinj. induction 1; simpl; constructor; auto.
+  intro Hi. apply in_map_iff in Hi as [y [Hy Hin]]. apply Hinj in Hy. subst. auto.
+Qed.
+
+(* ------------------------------------------------------------------ Nseq, proj *)
+
+Lemma Nseq_length s k : length (Nseq s k) = k.
+Proof. revert s; induction k; simpl; auto. Qed.
+
+Lemma Nseq_app s k1 k2 : Nseq s (k1 + k2) = Nseq s k1 ++ Nseq (s + N.of_nat k1) k2.
+Proof.
+  revert s; induction k1; intro s.
+  - simpl. rewrite N.add_0_r. reflexivity.
+  - simpl Nseq at 1 2. simpl app. rewrite IHk1. do 3 f_equal. lia.
+Qed.
+
+Lemma Nseq_ge s k x : In x (Nseq s k) -> (s <= x)%N.
+Proof. revert s; induction k; simpl; intros s H; [tauto|]. destruct H as [->|H]; [lia|]. apply IHk in H. lia. Qed.
+
+Lemma Nseq_NoDup s k : NoDup (Nseq s k).
+Proof.
+  revert s; induction k; intro s; simpl; constructor; auto.
+  intro H. apply Nseq_ge in H. lia.
+Qed.
+
+Lemma proj_app a l1 l2 : proj a (l1 ++ l2) = proj a l1 ++ proj a l2.
+Proof. unfold proj. rewrite filter_app, map_app. reflexivity. Qed.
+
+Lemma proj_sublist a l : sublist (map (fun n => (a, n)) (proj a l)) l.
+Proof.
+  induction l as [|[b n] l IH]; simpl; [constructor|].
+  unfold proj. simpl. destruct (Nat.eqb b a) eqn:E.
+  - apply Nat.eqb_eq in E. subst. simpl. constructor. exact IH.
+  - constructor. exact IH.
+Qed.
+
+(** a list of (key, value) pairs has no duplicates when no key has a duplicated value *)
+Lemma NoDup_by_key (l : list (nat * N)) : (forall a, NoDup (proj a l)) -> NoDup l.
+Proof.
+  induction l as [|[a n] l IH]; intro H; [constructor|].
+  constructor.
+  - intro Hin. specialize (H a). unfold proj in H. simpl in H. rewrite Nat.eqb_refl in H. simpl in H.
+    inversion H; subst. apply H2. apply in_map_iff. exists (a, n). split; auto.
+    apply filter_In. split; auto. simpl. apply Nat.eqb_refl.
+  - apply IH. intro b. specialize (H b). unfold proj in *. simpl in H.
+    destruct (Nat.eqb a b); simpl in H; auto. inversion H; auto.
+Qed.
+
+(* ------------------------------------------------------------------ state *)
+
+Lemma upd_same s a v : upd s a v a = v.
+Proof. unfold upd. rewrite Nat.eqb_refl. reflexivity. Qed.
+
+Lemma upd_other s a v b : b <> a -> upd s a v b = s b.
+Proof. unfold upd. intro H. apply Nat.eqb_neq in H. rewrite H. reflexivity. Qed.
+
+(* ------------------------------------------------------------------ decorator chain *)
+
+Lemma dec_eqb_eq a b : dec_eqb a b = true -> a = b.
+Proof. destruct a, b; simpl; congruence. Qed.
+
+Lemma decs_eqb_eq a b : decs_eqb a b = true -> a = b.
+Proof.
+  revert b; induction a as [|x a IH]; intros [|y b] H; simpl in H; try discriminate; auto.
+  apply andb_true_iff in H as [H1 H2]. apply dec_eqb_eq in H1. subst. f_equal. auto.
+Qed.
+
+Section Proofs.
+  Variable chain : Z.
+  Variable recover : emsg -> option nat.
+
+  Notation sender_of := (sender_of chain recover).
+  Notation sig_pass := (sig_pass chain recover).
+  Notation ante := (ante chain recover).
+  Notation run_msgs := (run_msgs chain recover).
+  Notation exec_msg := (exec_msg chain recover).
+  Notation deliver := (deliver chain recover).
+  Notation tx_claims := (tx_claims chain recover).
+
+  Lemma run_dec_irrelevant d ms c : relevant d = false -> run_dec chain recover d ms c = Some c.
+  Proof. destruct d; simpl; intro H; try discriminate; reflexivity. Qed.
+
+  Lemma run_chain_filter ds ms c :
+    run_chain chain recover ds ms c = run_chain chain recover (filter relevant ds) ms c.
+  Proof.
+    revert c; induction ds as [|d ds IH]; intro c; simpl; [reflexivity|].
+    destruct (relevant d) eqn:E.
+    - simpl. destruct (run_dec chain recover d ms c); auto.
+    - rewrite run_dec_irrelevant by assumption. apply IH.
+  Qed.
+
+  (** the four relevant decorators fused into one function *)
+  Definition ante_core (s : state) (ms : list emsg) : option state :=
+    match ms with
+    | [] => None
+    | _ =>
+        match sig_pass ms with
+        | None => None
+        | Some fs => if acc_pass fs ms then inc_pass s fs ms else None
+        end
+    end.
+
+  Lemma ante_wf ds s ms : chain_wf ds = true -> ante ds s ms = ante_core s ms.
+  Proof.
+    intro H. unfold chain_wf in H. apply decs_eqb_eq in H.
+    unfold ante. rewrite run_chain_filter, H. unfold ante_core.
+    destruct ms as [|m r]; [reflexivity|].
+    cbn [run_chain run_dec]. destruct (sig_pass (m :: r)) as [fs|]; [|reflexivity].
+    cbn [a_from a_seq]. destruct (acc_pass fs (m :: r)); [|reflexivity].
+    destruct (inc_pass s fs (m :: r)); reflexivity.
+  Qed.
+
+  (* ---------------------------------------------------------------- signature pass *)
+
+  Lemma sig_pass_spec ms fs :
+    sig_pass ms = Some fs -> fs = map sender_of ms /\ Forall (fun m => exists a, sender_of m = Some a) ms.
+  Proof.
+    revert fs; induction ms as [|m r IH]; simpl; intros fs H.
+    - inversion H. split; constructor.
+    - destruct (sender_of m) as [a|] eqn:E; [|discriminate].
+      destruct (sig_pass r) as [l|]; [|discriminate]. inversion H; subst.
+      destruct (IH l eq_refl) as [-> HF]. split; [reflexivity|]. constructor; eauto.
+  Qed.
+
+  Lemma sig_pass_complete ms :
+    Forall (fun m => exists a, sender_of m = Some a) ms -> sig_pass ms = Some (map sender_of ms).
+  Proof.
+    induction 1 as [|m r [a Ha] HF IH]; simpl; [reflexivity|]. rewrite Ha, IH. reflexivity.
+  Qed.
+
+  Lemma sender_admissible m a : sender_of m = Some a -> msg_admissible chain recover m /\ recover m = Some a.
+  Proof.
+    unfold Model.sender_of, msg_admissible. destruct (m_cid m) as [c|] eqn:E.
+    - destruct (Z.eqb c chain) eqn:Ec; [|discriminate]. apply Z.eqb_eq in Ec. subst.
+      intro H. split; [split; [eauto|right; reflexivity]|assumption].
+    - intro H. split; [split; [eauto|left; reflexivity]|assumption].
+  Qed.
+
+  Lemma admissible_sender m : msg_admissible chain recover m -> exists a, sender_of m = Some a /\ recover m = Some a.
+  Proof.
+    unfold Model.sender_of, msg_admissible. intros [[a Ha] [Hc|Hc]]; rewrite Hc.
+    - eauto.
+    - rewrite Z.eqb_refl. eauto.
+  Qed.
+
+  (* ---------------------------------------------------------------- increment pass *)
+
+  Lemma inc_pass_log ms : forall s fs s',
+    inc_pass s fs ms = Some s' ->
+    forall a, proj a (claims_of fs ms) = Nseq (s a) (length (proj a (claims_of fs ms))) /\
+              s' a = (s a + N.of_nat (length (proj a (claims_of fs ms))))%N.
+  Proof.
+    induction ms as [|m r IH]; intros s fs s' H a.
+    - destruct fs as [|[b|] fr]; simpl in H; try discriminate. inversion H; subst. simpl. split; [reflexivity|lia].
+    - destruct fs as [|[b|] fr]; simpl in H; try discriminate.
+      destruct (N.eqb (m_nonce m) (s b)) eqn:En; [|discriminate]. apply N.eqb_eq in En.
+      specialize (IH _ _ _ H a). destruct IH as [IH1 IH2].
+      cbn [claims_of]. unfold proj in *. cbn [filter fst]. destruct (Nat.eqb b a) eqn:E.
+      + apply Nat.eqb_eq in E. subst b. rewrite upd_same in IH1, IH2.
+        cbn [map snd length Nseq]. rewrite En. split; [f_equal; exact IH1|]. rewrite IH2. lia.
+      + apply Nat.eqb_neq in E. rewrite upd_other in IH1, IH2 by congruence. split; assumption.
+  Qed.
+
+  Lemma inc_pass_untouched ms : forall s fs s' a,
+    inc_pass s fs ms = Some s' -> ~ In a (map fst (claims_of fs ms)) -> s' a = s a.
+  Proof.
+    induction ms as [|m r IH]; intros s fs s' a H Hn.
+    - destruct fs as [|[b|] fr]; simpl in H; try discriminate. inversion H; reflexivity.
+    - destruct fs as [|[b|] fr]; simpl in H; try discriminate.
+      destruct (N.eqb (m_nonce m) (s b)); [|discriminate].
+      simpl in Hn. rewrite (IH _ _ _ a H) by tauto. apply upd_other. intro; subst; tauto.
+  Qed.
+
+  (** the fused loop as a relation: what "accepted" means, message by message *)
+  Inductive accepts : state -> list emsg -> state -> Prop :=
+  | acc_nil s : accepts s [] s
+  | acc_cons s m a r s' :
+      sender_of m = Some a -> m_nonce m = s a ->
+      accepts (upd s a (N.succ (s a))) r s' -> accepts s (m :: r) s'.
+
+  Lemma inc_pass_accepts ms : forall s s',
+    inc_pass s (map sender_of ms) ms = Some s' <-> accepts s ms s' .
+  Proof.
+    induction ms as [|m r IH]; intros s s'; simpl.
+    - split; intro H; [inversion H; constructor|inversion H; reflexivity].
+    - split; intro H.
+      + destruct (sender_of m) as [a|] eqn:E; [|discriminate].
+        destruct (N.eqb (m_nonce m) (s a)) eqn:En; [|discriminate]. apply N.eqb_eq in En.
+        econstructor; eauto. apply IH. exact H.
+      + inversion H; subst. rewrite H3, H5, N.eqb_refl. apply IH. assumption.
+  Qed.
+
+  Lemma acc_pass_funded ms :
+    Forall (fun m => exists a, sender_of m = Some a) ms ->
+    acc_pass (map sender_of ms) ms = forallb m_funded ms.
+  Proof. induction 1 as [|m r [a Ha] HF IH]; simpl; [reflexivity|]. rewrite Ha, IH. reflexivity. Qed.
+
+  (** acceptance, general form *)
+  Lemma ante_core_iff s ms s' :
+    ante_core s ms = Some s' <->
+    ms <> [] /\ forallb m_funded ms = true /\ accepts s ms s'.
+  Proof.
+    unfold ante_core. split.
+    - destruct ms as [|m r]; [discriminate|].
+      destruct (sig_pass (m :: r)) as [fs|] eqn:E; [|discriminate].
+      apply sig_pass_spec in E as [-> HF]. rewrite acc_pass_funded by assumption.
+      destruct (forallb m_funded (m :: r)) eqn:Ef; [|discriminate].
+      intro H. split; [discriminate|]. split; [reflexivity|]. apply inc_pass_accepts. exact H.
+    - intros [Hne [Hf Ha]]. destruct ms as [|m r]; [congruence|].
+      assert (HF : Forall (fun m => exists a, sender_of m = Some a) (m :: r)).
+      { clear -Ha. remember (m :: r) as l. clear Heql. induction Ha; constructor; eauto. }
+      rewrite (sig_pass_complete _ HF), (acc_pass_funded _ HF), Hf. apply inc_pass_accepts. exact Ha.
+  Qed.
+
+  (* ---------------------------------------------------------------- msg server *)
+
+  Lemma claims_senders ms : forall fs, fs = map sender_of ms -> Forall (fun m => exists a, sender_of m = Some a) ms ->
+    forall a, In a (map fst (claims_of fs ms)) <-> exists m, In m ms /\ sender_of m = Some a.
+  Proof.
+    induction ms as [|m r IH]; intros fs -> HF a; simpl.
+    - split; [tauto|intros [? [[] _]]].
+    - inversion HF as [|? ? [b Hb] HF']; subst. rewrite Hb. simpl.
+      rewrite (IH _ eq_refl HF' a). split.
+      + intros [->|[m' [Hin Hs]]]; [exists m; auto|exists m'; auto].
+      + intros [m' [[->|Hin] Hs]]; [left; congruence|right; eauto].
+  Qed.
+
+  (** the msg-server bracket SetNonce(n) … SetNonce(n+1) reproduces the ante sequences, whatever
+      state the messages start from, for every sender of the tx *)
+  Lemma bracket_restores ms : forall s0 s t t2 us cs,
+    inc_pass s0 (map sender_of ms) ms = Some s ->
+    run_msgs t ms = Some (t2, us, cs) ->
+    forall a, (In a (map fst (claims_of (map sender_of ms) ms)) -> t2 a = s a) /\
+              (~ In a (map fst (claims_of (map sender_of ms) ms)) -> t2 a = t a).
+  Proof.
+    induction ms as [|m r IH]; intros s0 s t t2 us cs Hi Hr a.
+    - simpl in *. inversion Hr; subst. split; [tauto|reflexivity].
+    - cbn [map] in Hi. cbn [Model.inc_pass] in Hi. cbn [Model.run_msgs] in Hr.
+      unfold Model.exec_msg in Hr.
+      destruct (sender_of m) as [b|] eqn:Eb; [|discriminate].
+      destruct (N.eqb (m_nonce m) (s0 b)) eqn:En; [|discriminate]. apply N.eqb_eq in En.
+      assert (Hr' : exists t1, t1 = upd (upd t b (m_nonce m)) b (N.succ (m_nonce m)) /\
+                    exists us' cs', run_msgs t1 r = Some (t2, us', cs')).
+      { destruct (m_exec m); try discriminate;
+        (destruct (Model.run_msgs chain recover _ r) as [[[x y] z]|] eqn:Er; [|discriminate]);
+        inversion Hr; subst; eexists; split; try reflexivity; eauto. }
+      destruct Hr' as [t1 [Ht1 [us' [cs' Hr']]]].
+      destruct (IH _ _ _ _ _ _ Hi Hr' a) as [IH1 IH2].
+      cbn [map claims_of]. rewrite Eb. cbn [map fst In].
+      destruct (in_dec Nat.eq_dec a (map fst (claims_of (map sender_of r) r))) as [Hin|Hnin].
+      + split; [intros _; auto|intro H; exfalso; apply H; right; exact Hin].
+      + rewrite (IH2 Hnin). split.
+        * intros [Hab|Hin]; [|tauto]. subst a.
+          rewrite (inc_pass_untouched _ _ _ _ b Hi Hnin). rewrite Ht1, !upd_same. rewrite En. reflexivity.
+        * intro H. rewrite Ht1. rewrite !upd_other by (intro; subst; apply H; left; reflexivity). reflexivity.
+  Qed.
+
+  Lemma run_msgs_published ms : forall t t2 us cs,
+    run_msgs t ms = Some (t2, us, cs) ->
+    us = map m_uid ms /\
+    forall u k, In (u, k) cs -> exists m, In m ms /\ m_uid m = u /\ m_nonce m = k /\ m_create m = true /\ m_exec m = ExecOk.
+  Proof.
+    induction ms as [|m r IH]; intros t t2 us cs H.
+    - simpl in H. inversion H; subst. split; [reflexivity|intros ? ? []].
+    - cbn [Model.run_msgs] in H. unfold Model.exec_msg in H.
+      destruct (sender_of m) as [b|] eqn:Eb; [|destruct (m_exec m); discriminate].
+      destruct (m_exec m) eqn:Ee; try discriminate;
+      (destruct (Model.run_msgs chain recover _ r) as [[[x y] z]|] eqn:Er; [|discriminate]);
+      inversion H; subst; destruct (IH _ _ _ _ Er) as [-> IHc]; (split; [reflexivity|]).
+      + destruct (m_create m) eqn:Ec.
+        * intros u k [Heq|Hin].
+          -- inversion Heq; subst. exists m. rewrite upd_same. auto 6.
+          -- destruct (IHc _ _ Hin) as [m' [? ?]]. exists m'; simpl; tauto.
+        * intros u k Hin. destruct (IHc _ _ Hin) as [m' [? ?]]. exists m'; simpl; tauto.
+      + intros u k Hin. destruct (IHc _ _ Hin) as [m' [? ?]]. exists m'; simpl; tauto.
+  Qed.
+
+  (* ---------------------------------------------------------------- one delivered tx *)
+
+  (** [step_ok] for every account at once *)
+  Definition step_all (b : state) (t : tx) (r : result) (after : state) : Prop :=
+    (r_accepted r = true ->
+       tx_admissible chain recover t /\
+       forall a, proj a (tx_claims t) = Nseq (b a) (length (proj a (tx_claims t))) /\
+                 after a = (b a + N.of_nat (length (proj a (tx_claims t))))%N) /\
+    (r_accepted r = false -> (forall a, after a = b a) /\ r_executed r = [] /\ r_created r = []) /\
+    executed_ok t r /\ created_ok t r.
+
+  Lemma step_all_ok A b t r after : step_all b t r after -> step_ok chain recover A b t r after.
+  Proof.
+    intros [H1 [H2 [H3 H4]]]. split; [|split; [|split]]; auto.
+    - intro Ha. destruct (H1 Ha) as [Hx Hy]. split; auto. intros a _. apply Hy.
+    - intro Ha. destruct (H2 Ha) as [Hx Hy]. split; auto.
+  Qed.
+
+  Lemma deliver_step ds s t s' r :
+    chain_wf ds = true -> deliver ds s t = (s', r) -> step_all s t r s'.
+  Proof.
+    intros Hwf H. destruct t as [ms|a q ek ok]; cbn [Model.deliver] in H.
+    - rewrite (ante_wf _ _ _ Hwf) in H.
+      destruct (ante_core s ms) as [s1|] eqn:Ea.
+      + (* accepted *)
+        pose proof Ea as Ea'. unfold ante_core in Ea'. destruct ms as [|m0 r0]; [discriminate|].
+        destruct (sig_pass (m0 :: r0)) as [fs|] eqn:Es; [|discriminate].
+        destruct (acc_pass fs (m0 :: r0)); [|discriminate].
+        pose proof (sig_pass_spec _ _ Es) as [Hfs HF].
+        pose proof (inc_pass_log _ _ _ _ Ea') as Hlog.
+        assert (Hadm : tx_admissible chain recover (TxEth (m0 :: r0))).
+        { split; [discriminate|]. eapply Forall_impl; [|exact HF]. intros m [a Ha]. apply (sender_admissible _ _ Ha). }
+        assert (Hcl : tx_claims (TxEth (m0 :: r0)) = claims_of fs (m0 :: r0)).
+        { unfold Spec.tx_claims. rewrite Es. reflexivity. }
+        destruct (run_msgs s1 (m0 :: r0)) as [[[s2 us] cs]|] eqn:Er.
+        * inversion H; subst s' r. clear H.
+          destruct (run_msgs_published _ _ _ _ _ Er) as [Hus Hcs].
+          subst fs.
+          split; [|split; [|split]]; cbn [r_accepted r_executed r_created].
+          -- intros _. split; [exact Hadm|]. intro a. rewrite Hcl.
+             destruct (Hlog a) as [L1 L2]. split; [exact L1|].
+             destruct (bracket_restores _ _ _ _ _ _ _ Ea' Er a) as [B1 B2].
+             destruct (in_dec Nat.eq_dec a (map fst (claims_of (map sender_of (m0 :: r0)) (m0 :: r0)))) as [Hin|Hnin].
+             ++ rewrite (B1 Hin). exact L2.
+             ++ rewrite (B2 Hnin). exact L2.
+          -- discriminate.
+          -- right. exact Hus.
+          -- intros u k Hin. destruct (Hcs _ _ Hin) as [m [? [? [? _]]]]. exists m. auto.
+        * inversion H; subst s' r. clear H.
+          split; [|split; [|split]]; cbn [r_accepted r_executed r_created accepted_only].
+          -- intros _. split; [exact Hadm|]. intro a. rewrite Hcl. apply Hlog.
+          -- discriminate.
+          -- left. reflexivity.
+          -- intros u k [].
+      + inversion H; subst s' r. split; [|split; [|split]]; cbn.
+        * discriminate.
+        * intros _. auto.
+        * left. reflexivity.
+        * intros u k [].
+    - destruct (negb ek && N.eqb q (s a)) eqn:E; inversion H; subst s' r; clear H.
+      + apply andb_true_iff in E as [E1 E2]. apply negb_true_iff in E1. apply N.eqb_eq in E2. subst q.
+        split; [|split; [|split]]; cbn; try reflexivity; try discriminate.
+        intros _. split; [exact E1|]. intro b. unfold proj. cbn [filter fst].
+        destruct (Nat.eqb a b) eqn:Eab.
+        * apply Nat.eqb_eq in Eab. subst b. cbn. rewrite upd_same. split; [reflexivity|lia].
+        * apply Nat.eqb_neq in Eab. cbn. rewrite upd_other by congruence. split; [reflexivity|lia].
+      + split; [|split; [|split]]; cbn; try reflexivity; try discriminate. intros _. auto.
+  Qed.
+
+  (* ---------------------------------------------------------------- histories *)
+
+  Fixpoint trace (ds : list dec) (s : state) (ts : list tx) : list gstep :=
+    match ts with
+    | [] => []
+    | t :: r => let '(s1, x) := deliver ds s t in (t, x, s1) :: trace ds s1 r
+    end.
+
+  Definition final (s0 : state) (tr : list gstep) : state := last (map snd tr) s0.
+
+  Lemma trace_run ds ts : forall s, map (fun g => snd (fst g)) (trace ds s ts) = snd (run chain recover ds s ts).
+  Proof.
+    induction ts as [|t r IH]; intro s; simpl; [reflexivity|].
+    destruct (deliver ds s t) as [s1 x] eqn:E. simpl.
+    destruct (run chain recover ds s1 r) as [s2 xs] eqn:Er. simpl. f_equal.
+    rewrite IH, Er. reflexivity.
+  Qed.
+
+  Lemma trace_steps_ok A ds : chain_wf ds = true -> forall ts s, steps_ok chain recover A s (trace ds s ts).
+  Proof.
+    intros Hwf ts; induction ts as [|t r IH]; intro s; simpl; [exact I|].
+    destruct (deliver ds s t) as [s1 x] eqn:E. simpl. split; [|apply IH].
+    apply step_all_ok. eapply deliver_step; eauto.
+  Qed.
+
+  (** claims of the accepted txs of a trace, in order *)
+  Definition acc_claims (tr : list gstep) : list (nat * N) :=
+    concat (map (fun g => if r_accepted (snd (fst g)) then tx_claims (fst (fst g)) else []) tr).
+
+  (** per account, the sequence numbers accepted over a whole history are consecutive from the
+      initial sequence, and the final sequence is the initial one plus their number *)
+  Lemma history_consecutive ds : chain_wf ds = true -> forall ts s a,
+    proj a (acc_claims (trace ds s ts)) = Nseq (s a) (length (proj a (acc_claims (trace ds s ts)))) /\
+    final s (trace ds s ts) a = (s a + N.of_nat (length (proj a (acc_claims (trace ds s ts)))))%N.
+  Proof.
+    intros Hwf ts; induction ts as [|t r IH]; intros s a.
+    - simpl. unfold final. simpl. split; [reflexivity|lia].
+    - cbn [trace]. destruct (deliver ds s t) as [s1 x] eqn:E.
+      pose proof (deliver_step _ _ _ _ _ Hwf E) as [Hacc [Hrej _]].
+      destruct (IH s1 a) as [IH1 IH2].
+      unfold acc_claims. cbn [map concat fst snd]. fold (acc_claims (trace ds s1 r)).
+      rewrite proj_app, app_length.
+      assert (Hfin : final s ((t, x, s1) :: trace ds s1 r) a = final s1 (trace ds s1 r) a).
+      { unfold final. cbn [map snd]. destruct (map snd (trace ds s1 r)) eqn:Em; [reflexivity|].
+        cbn [last]. rewrite <- Em. clear. generalize (map snd (trace ds s1 r)). intro l.
+        destruct l; [reflexivity|]. reflexivity. }
+      rewrite Hfin, IH2.
+      destruct (r_accepted x) eqn:Ex.
+      + destruct (Hacc eq_refl) as [_ Hadv]. destruct (Hadv a) as [H1 H2].
+        rewrite Nseq_app. rewrite <- H1. rewrite <- H2. rewrite <- IH1. split; [reflexivity|]. rewrite H2. lia.
+      + destruct (Hrej eq_refl) as [Hsame _]. rewrite Hsame in *. cbn [proj filter map length app].
+        unfold proj at 1 3 5. cbn. split; [exact IH1|lia].
+  Qed.
+
+  Lemma acc_claims_NoDup ds ts s : chain_wf ds = true -> NoDup (acc_claims (trace ds s ts)).
+  Proof.
+    intro Hwf. apply NoDup_by_key. intro a.
+    destruct (history_consecutive ds Hwf ts s a) as [H _]. rewrite H. apply Nseq_NoDup.
+  Qed.
+
+  (** accepted Ethereum messages of a trace, with the claim each one makes *)
+  Definition acc_msgs (tr : list gstep) : list emsg :=
+    concat (map (fun g => match fst (fst g) with
+                          | TxEth ms => if r_accepted (snd (fst g)) then ms else []
+                          | _ => [] end) tr).
+
+  Definition claimo (m : emsg) : option nat * N := (sender_of m, m_nonce m).
+
+  Lemma claims_of_claimo ms : Forall (fun m => exists a, sender_of m = Some a) ms ->
+    map (fun p => (Some (fst p), snd p)) (claims_of (map sender_of ms) ms) = map claimo ms.
+  Proof.
+    induction 1 as [|m r [a Ha] HF IH]; [reflexivity|].
+    cbn [map claims_of]. rewrite Ha. cbn [map fst snd]. rewrite IH. unfold claimo at 2. rewrite Ha. reflexivity.
+  Qed.
+
+  Lemma acc_msgs_claims ds : chain_wf ds = true -> forall ts s,
+    sublist (map claimo (acc_msgs (trace ds s ts)))
+            (map (fun p => (Some (fst p), snd p)) (acc_claims (trace ds s ts))).
+  Proof.
+    intros Hwf ts; induction ts as [|t r IH]; intro s; [constructor|].
+    cbn [trace]. destruct (deliver ds s t) as [s1 x] eqn:E.
+    unfold acc_msgs, acc_claims. cbn [map concat fst snd].
+    fold (acc_msgs (trace ds s1 r)). fold (acc_claims (trace ds s1 r)).
+    rewrite !map_app. apply sublist_app; [|apply IH].
+    destruct t as [ms|a q ek ok]; [|apply sublist_nil_l].
+    destruct (r_accepted x) eqn:Ex; [|constructor].
+    (* accepted eth tx: claims are exactly the claims of its messages *)
+    cbn [Model.deliver] in E. rewrite (ante_wf _ _ _ Hwf) in E.
+    destruct (ante_core s ms) as [s2|] eqn:Ea.
+    - unfold ante_core in Ea. destruct ms as [|m0 r0]; [discriminate|].
+      unfold Spec.tx_claims. destruct (sig_pass (m0 :: r0)) as [fs|] eqn:Es; [|discriminate].
+      apply sig_pass_spec in Es as [-> HF]. rewrite (claims_of_claimo _ HF). apply sublist_refl.
+    - inversion E; subst. discriminate.
+  Qed.
+
+  Lemma executed_sublist ds : forall ts s,
+    sublist (all_executed (trace ds s ts)) (map m_uid (acc_msgs (trace ds s ts))).
+  Proof.
+    induction ts as [|t r IH]; intro s; [constructor|].
+    cbn [trace]. destruct (deliver ds s t) as [s1 x] eqn:E.
+    unfold all_executed, acc_msgs. cbn [map concat fst snd].
+    fold (all_executed (trace ds s1 r)). fold (acc_msgs (trace ds s1 r)).
+    rewrite map_app. apply sublist_app; [|apply IH].
+    destruct t as [ms|a q ek ok]; cbn [Model.deliver] in E.
+    - destruct (ante ds s ms) as [s2|].
+      + destruct (run_msgs s2 ms) as [[[s3 us] cs]|] eqn:Er; inversion E; subst; cbn.
+        * destruct (run_msgs_published _ _ _ _ _ Er) as [-> _]. apply sublist_refl.
+        * apply sublist_nil_l.
+      + inversion E; subst. cbn. constructor.
+    - destruct (negb ek && N.eqb q (s a)); inversion E; subst; cbn; constructor.
+  Qed.
+
+  Lemma acc_msgs_incl ds : forall ts s m, In m (acc_msgs (trace ds s ts)) ->
+    exists ms, In (TxEth ms) ts /\ In m ms.
+  Proof.
+    induction ts as [|t r IH]; intros s m H; [destruct H|].
+    cbn [trace] in H. destruct (deliver ds s t) as [s1 x] eqn:E.
+    unfold acc_msgs in H. cbn [map concat fst snd] in H. fold (acc_msgs (trace ds s1 r)) in H.
+    apply in_app_or in H as [H|H].
+    - destruct t as [ms|]; [|destruct H]. destruct (r_accepted x); [|destruct H].
+      exists ms. split; [left; reflexivity|assumption].
+    - destruct (IH _ _ H) as [ms [? ?]]. exists ms. split; [right; assumption|assumption].
+  Qed.
+
+  (** the hash of a signed transaction determines its signer and its nonce *)
+  Definition hash_binding (ts : list tx) : Prop :=
+    forall ms ms' m m', In (TxEth ms) ts -> In (TxEth ms') ts -> In m ms -> In m' ms' ->
+      m_uid m = m_uid m' -> sender_of m = sender_of m' /\ m_nonce m = m_nonce m'.
+
+  Lemma executed_NoDup ds ts s :
+    chain_wf ds = true -> hash_binding ts -> NoDup (all_executed (trace ds s ts)).
+  Proof.
+    intros Hwf Hb.
+    eapply sublist_NoDup; [apply executed_sublist|].
+    apply NoDup_map_binding with (f := claimo).
+    - eapply sublist_NoDup; [apply acc_msgs_claims; assumption|].
+      apply NoDup_map_inj; [|apply acc_claims_NoDup; assumption].
+      intros [a n] [b k]; simpl. intro H; inversion H; reflexivity.
+    - intros m m' Hm Hm' Hu.
+      destruct (acc_msgs_incl _ _ _ _ Hm) as [ms [H1 H2]].
+      destruct (acc_msgs_incl _ _ _ _ Hm') as [ms' [H1' H2']].
+      destruct (Hb _ _ _ _ H1 H1' H2 H2' Hu) as [Hs Hn]. unfold claimo. rewrite Hs, Hn. reflexivity.
+  Qed.
+
+  Theorem model_satisfies_P A ds s ts :
+    chain_wf ds = true -> hash_binding ts -> P chain recover A s (trace ds s ts).
+  Proof.
+    intros Hwf Hb. split; [apply trace_steps_ok; assumption|apply executed_NoDup; assumption].
+  Qed.
+
+  (* ---------------------------------------------------------------- exported forms *)
+
+  (** single message: accepted iff signature recovers, chain id (if any) is this chain's, the
+      other checks pass, and nonce == current sequence; the sequence then goes up by one *)
+  Lemma accept_iff_single ds s m s' :
+    chain_wf ds = true ->
+    (ante ds s [m] = Some s' <->
+     exists a, recover m = Some a /\ (m_cid m = None \/ m_cid m = Some chain) /\ m_funded m = true /\
+               m_nonce m = s a /\ s' = upd s a (N.succ (s a))).
+  Proof.
+    intro Hwf. rewrite (ante_wf _ _ _ Hwf), ante_core_iff. split.
+    - intros [_ [Hf Ha]]. inversion Ha; subst. inversion H5; subst.
+      destruct (sender_admissible _ _ H2) as [[_ Hc] Hr]. simpl in Hf. rewrite andb_true_r in Hf.
+      exists a. auto.
+    - intros [a [Hr [Hc [Hf [Hn ->]]]]].
+      destruct (admissible_sender m) as [b [Hb Hb']]; [split; eauto|].
+      assert (b = a) by congruence. subst b.
+      split; [discriminate|]. split; [simpl; rewrite Hf; reflexivity|].
+      econstructor; eauto. constructor.
+  Qed.
+
+  (** acceptance of a multi-message tx is atomic and message by message on the running sequence *)
+  Lemma accept_iff_general ds s ms s' :
+    chain_wf ds = true ->
+    (ante ds s ms = Some s' <-> ms <> [] /\ forallb m_funded ms = true /\ accepts s ms s').
+  Proof. intro Hwf. rewrite (ante_wf _ _ _ Hwf). apply ante_core_iff. Qed.
+
+  Lemma rejected_changes_nothing ds s t :
+    r_accepted (snd (deliver ds s t)) = false -> fst (deliver ds s t) = s.
+  Proof.
+    destruct t as [ms|a q ek ok]; cbn [Model.deliver].
+    - destruct (ante ds s ms) as [s1|]; [|reflexivity].
+      destruct (run_msgs s1 ms) as [[[? ?] ?]|]; cbn; discriminate.
+    - destruct (negb ek && N.eqb q (s a)); cbn; [discriminate|reflexivity].
+  Qed.
+
+  (** every accepted message / Cosmos tx raises the signer's sequence by exactly one, whether or
+      not execution succeeds *)
+  Lemma sequence_plus_one_per_accepted ds s t :
+    chain_wf ds = true -> r_accepted (snd (deliver ds s t)) = true ->
+    forall a, fst (deliver ds s t) a = (s a + N.of_nat (length (proj a (tx_claims t))))%N.
+  Proof.
+    intros Hwf Hacc a. destruct (deliver ds s t) as [s' r] eqn:E.
+    destruct (deliver_step _ _ _ _ _ Hwf E) as [H _]. destruct (H Hacc) as [_ Hadv]. apply Hadv.
+  Qed.
+
+  (** a contract is created at the address derived from the signer and the TRANSACTION's nonce,
+      also when the account sequence already ran ahead (several messages in one tx) *)
+  Lemma created_at_tx_nonce ds s ms s' r :
+    deliver ds s (TxEth ms) = (s', r) ->
+    forall u k, In (u, k) (r_created r) ->
+      exists m, In m ms /\ m_uid m = u /\ m_nonce m = k /\ m_create m = true /\ m_exec m = ExecOk.
+  Proof.
+    cbn [Model.deliver]. destruct (ante ds s ms) as [s1|].
+    - destruct (run_msgs s1 ms) as [[[s2 us] cs]|] eqn:Er; intro H; inversion H; subst; cbn.
+      + apply (run_msgs_published _ _ _ _ _ Er).
+      + intros ? ? [].
+    - intro H; inversion H; subst. intros ? ? [].
+  Qed.
+
+  (** at most once: no uid is executed twice in any history *)
+  Lemma at_most_once ds s ts u :
+    chain_wf ds = true -> hash_binding ts -> (count_occ Nat.eq_dec (all_executed (trace ds s ts)) u <= 1)%nat.
+  Proof.
+    intros Hwf Hb. apply NoDup_count_occ. apply executed_NoDup; assumption.
+  Qed.
+End Proofs.
